@@ -70,6 +70,7 @@ DONE.update({
          "server cert {trusted leaf, other-CA leaf, self-signed, expired} x names x skip-verify x roots x client cert {none, client-CA, other-CA, self-signed} x server client-CA {none,set} x constructors, each followed by an echo both ways; probe client observing CertificateRequest; reload histories; client-name precedence",
          "rustls backend only; depth-1 chains"),
 })
+DONE["C04"] = (DONE["C04"][0], DONE["C04"][1], DONE["C04"][2] + "; plus loom models of a writer parked on credit against racing grants (m1,m3,m8,m11)", DONE["C04"][3], DONE["C04"][4])
 DONE["C06"] = (DONE["C06"][0], DONE["C06"][1], DONE["C06"][2] + "; plus loom models of an abort racing a writer parked on credit (m2,m6,m9)", DONE["C06"][3], DONE["C06"][4])
 DONE["C03"] = (DONE["C03"][0], DONE["C03"][1], DONE["C03"][2] + "; plus loom models of credit conservation under racing grants (m1,m3,m4,m8)", DONE["C03"][3], DONE["C03"][4])
 
